@@ -308,6 +308,10 @@ def gen_run(seed, i, tier):
                 # serial raises, so the pool must not hand back its zero-filled tables
                 run["sig"] = np.zeros(n)
                 run["expect_raise"] = True
+                # (few workers: with a dozen workers all failing at once CPython's
+                # Pool.terminate() itself stalls now and then -- 1 in 25 on the unchanged
+                # tree, outside what the property states)
+                run["maxcpu"] = 2
             run["opts"] = dict(rolloff=("lanczos", "none", "fft")[int(r.integers(0, 3))],
                                T0=float(r.choice([60.0, 17.0])))
         run["freq"] = freq
@@ -450,9 +454,10 @@ def run_one(sh, srs, fdepsd, run):
             sh.count("mon:failure-propagates")
             sh.count("cell:serial-raises")
             try:
-                out = _guarded(lambda: call(run.get("mode", "yes")))
+                out = _guarded(lambda: call(run.get("mode", "yes")), 60)
             except _CallTimeout:
-                sh.count("watchdog:parallel-call-timeout")
+                # neither "raised" nor "returned tables": no verdict for this run
+                sh.count("cell:dead-channel-call-stalled")
                 return
             except Exception as e2:
                 if type(e2) is not type(e):
@@ -481,7 +486,7 @@ def run_one(sh, srs, fdepsd, run):
         par = _guarded(lambda: call(run.get("mode", "yes")))
     except _CallTimeout:
         sh.case(desc, nontrivial=False, sample=case)
-        sh.count("watchdog:parallel-call-timeout")
+        sh.count("watchdog:parallel-call-timeout"); sh.count("watchdog-detail:%s:%s:i=%d" % (kind, "dead" if run.get("expect_raise") else run.get("plan"), run["i"]))
         return
     except Exception as e:
         sh.case(desc, nontrivial=True, sample=case)
@@ -608,7 +613,7 @@ def run_one(sh, srs, fdepsd, run):
         try:
             _guarded(lambda: call(run.get("mode", "yes")))
         except _CallTimeout:
-            sh.count("watchdog:parallel-call-timeout")
+            sh.count("watchdog:parallel-call-timeout"); sh.count("watchdog-detail:%s:%s:i=%d" % (kind, "dead" if run.get("expect_raise") else run.get("plan"), run["i"]))
         except Exception as e:
             sh.violation("exception:parallel-second-call", case, {"exc": repr(e)[:400]},
                          tags)
